@@ -572,7 +572,7 @@ func generate(prop string, seed int64, tier string) *Plan {
 				ops = append(ops, g.c11Base(p.Cfg.Hook)...)
 			}
 		case "C13":
-			ops = append(ops, g.opC13())
+			ops = append(ops, g.c13Base()...)
 		case "C15":
 			ops = append(ops, g.opC15())
 		case "C16":
@@ -595,5 +595,3 @@ func generate(prop string, seed int64, tier string) *Plan {
 	}
 	return p
 }
-
-func (g *gen) opC13() Op { return g.op(0) }
